@@ -109,6 +109,12 @@ MUTANTS = {
     "c20-scale-moved": ("pulsarbat/contrib/misc.py", "    x = x.reshape(out_shape)\n    x /= nperseg\n", "    x = x.reshape(out_shape)\n    x = x / (nperseg if nperseg != 3 else 1)\n", ["C20"]),
     "c20-no-fftshift": ("pulsarbat/contrib/misc.py", "    x = np.fft.fftshift(x, axes=(2,))\n", "    x = np.fft.ifftshift(x, axes=(2,))\n", ["C20"]),
     "c20-dask-eager": ("pulsarbat/fft.py", "        wrapped_func = da.fft.fft_wrap(_fft_func)\n        return wrapped_func(*args, **kwargs)", "        import numpy as _np\n        return _fft_func(_np.asarray(args[0]), *args[1:], **kwargs)", ["C20"]),
+    "c07-no-renorm": ("pulsarbat/pulsar/phase.py", "    excess = np.floor(frac + 0.5)\n    day += excess\n    extra, frac = two_sum(sum12, -day)\n    frac += extra + err12\n    return day, frac", "    return day, frac", ["C07"]),
+    "c07-plain-product": ("pulsarbat/pulsar/phase.py", "        sum12, carry = two_product(sum12, factor)\n", "        sum12, carry = sum12 * factor, 0.0\n", ["C07"]),
+    "c07-imag-or": ("pulsarbat/pulsar/phase.py", "            if imf and imaginary:\n                factor = -factor\n            imaginary ^= imf", "            if imf and imaginary:\n                factor = -factor\n            imaginary |= imf", ["C07"]),
+    "c07-mul-self-first": ("pulsarbat/pulsar/phase.py", "            function is np.multiply or function is np.divide and i_self == 0\n        ) and basic_phase_out:", "            (function is np.multiply or function is np.divide) and i_self == 0\n        ) and basic_phase_out:", ["C07"]),
+    "c07-err-dropped": ("pulsarbat/pulsar/phase.py", "        carry += err12 * factor\n", "", ["C07"]),
+    "c07-abs-sign": ("pulsarbat/pulsar/phase.py", 'factor=np.sign(v["int"] + v["frac"]),', 'factor=np.sign(v["int"]),', ["C07"]),
 }
 
 # behaviour-preserving edits: no check may fire
